@@ -214,13 +214,64 @@ def effect_sites(prog, keys):
     out = []
     for key in sorted(keys):
         fn = prog.functions[key]
-        for c in astu.calls(fn['body']):
-            q = c['callee']['qn']
-            if q in MUTATORS:
-                out.append((fn, q, c.get('l'), 'mutator', c))
-            elif q in ENTROPY:
-                out.append((fn, q, c.get('l'), 'entropy', c))
+        trees = [fn['body']] + [i_['init'] for i_ in fn.get('inits', []) if isinstance(i_.get('init'), dict)]
+        for t_ in trees:
+            for c in astu.calls(t_):
+                q = c['callee']['qn']
+                if q in MUTATORS:
+                    out.append((fn, q, c.get('l'), 'mutator', c))
+                elif q in ENTROPY:
+                    out.append((fn, q, c.get('l'), 'entropy', c))
     return out
+
+
+_PROG = [None]          # set by the checks that use the RAII extension below
+
+
+def _static_mutex_of(e, prog):
+    """identity of the static-storage mutex designated by a lock constructor's argument: a static variable itself, or a call of a
+    project function that returns a reference to its function-local static mutex"""
+    e = astu.strip_casts(e)
+    r = root_ref(e)
+    if r is not None and r.get('dk') in ('global', 'static_local', 'static_member'):
+        return (r.get('id'), r.get('qn') or r.get('name'))
+    if e.get('k') in ('Call', 'MCall') and e.get('callee', {}).get('project') and prog is not None:
+        for f in prog.fns(e['callee']['qn']):
+            for n in astu.walk(f['body']):
+                if n['k'] == 'Return' and n.get('e') is not None:
+                    rr = root_ref(astu.strip_casts(n['e']))
+                    if rr is not None and rr.get('dk') == 'static_local' and 'mutex' in rr.get('ty', ''):
+                        return (rr.get('id'), rr.get('qn') or rr.get('name'))
+    return None
+
+
+def _raii_held(fn, site):
+    """locks held at a site of a constructor / destructor of a class that owns lock members (an RAII sentry).  Members are
+    initialised in declaration order (the order of fn['inits']), whatever the order written in the initialiser list: a call in the
+    initialiser of member k holds only the lock members initialised before it; the constructor body and the destructor body hold all
+    of them.  -> list of (id, name), or None when fn is not such a constructor/destructor"""
+    prog = _PROG[0]
+    if prog is None or not (fn.get('ctor') or fn.get('dtor')) or not fn.get('cls'):
+        return None
+    ctors = [f for f in prog.functions.values() if f.get('cls') == fn['cls'] and f.get('ctor') and f.get('inits')]
+    if not ctors:
+        return None
+    inits = (fn if fn.get('ctor') and fn.get('inits') else ctors[0])['inits']
+    locks = []          # (position, identity)
+    for pos, i_ in enumerate(inits):
+        e = i_.get('init')
+        if isinstance(e, dict) and e.get('k') == 'Ctor' and any(t in e.get('ty', '') for t in ('lock_guard', 'unique_lock', 'scoped_lock')):
+            for a in e.get('args', []):
+                m = _static_mutex_of(a, prog)
+                if m is not None:
+                    locks.append((pos, m))
+    if not locks:
+        return None
+    if fn.get('ctor'):
+        for pos, i_ in enumerate(fn.get('inits', [])):
+            if isinstance(i_.get('init'), dict) and _contains(i_['init'], site):
+                return [m for p_, m in locks if p_ < pos]
+    return [m for p_, m in locks]
 
 
 RESOURCE = {'gsl_set_error_handler_off': 'the GSL error handler', 'gsl_set_error_handler': 'the GSL error handler',
@@ -235,6 +286,9 @@ def held_mutexes(fn, site):
     """identities (declaration ids) of the static-storage mutexes on which a std::lock_guard / unique_lock / scoped_lock is alive
     at the call site (constructed earlier in the same or an enclosing block)"""
     out = []
+    raii = _raii_held(fn, site)
+    if raii is not None:
+        return raii
 
     def scan(stmt, held):
         k = stmt.get('k')
@@ -293,6 +347,9 @@ def lock_dominates(fn, site):
 
     def _direct(s, site):
         return True
+    raii = _raii_held(fn, site)
+    if raii is not None:
+        return bool(raii)
     return scan(fn['body'], False)
 
 
